@@ -3,10 +3,10 @@ import PlzVerif.Model.TestE2E
 open PlzVerif PlzVerif.Proto PlzVerif.Build PlzVerif.BuildE2E PlzVerif.TestCache PlzVerif.TestE2E
 
 structure St where
-  files : List (String × String) := []                 -- source tree: path ↦ contents
-  defs  : List TAttrs := []
-  out   : List (String × (Tree × Stamp')) := []        -- plz-out/{gen,bin}
-  res   : List (String × Stored RS) := []              -- results files
+  files   : List (String × String) := []               -- source tree: path ↦ contents
+  defs    : List TAttrs := []
+  cacheOn : Bool := false                              -- `[cache] dir` configured
+  ts      : TSt := TState.empty                        -- plz-out (outputs, results files) and the artifact cache
 
 def findDef (st : St) (l : String) : Option TAttrs := st.defs.find? (·.b.label = l)
 
@@ -54,7 +54,7 @@ def mkRepo (st : St) (order : List String) : TRepo String TAttrs String String T
           { key := l, attrs := a, srcs := fileSrcsOf a, deps := srcLabels a } },
     tests := fun k => (findDef st k).bind mkTestDef,
     ownName := fun k => match findDef st k with | some a => a.b.out | none => "",
-    cfg := "" }
+    cfg := "", cacheOn := st.cacheOn }
 
 /-- a gentest without `cmd` has no build command, so it never shows up in the action log -/
 def hasCmd (st : St) (l : String) : Bool := match findDef st l with | some a => a.kind != .puretest | none => true
@@ -115,8 +115,10 @@ def step (st : St) (line : String) : St × String :=
       ({ st with defs := st.defs.filter (·.b.label ≠ label) ++ [a] }, "ok")
     | _, _, _, _ => (st, "bad-op")
   | ["deltarget", label] => ({ st with defs := st.defs.filter (·.b.label ≠ label) }, "ok")
-  | ["rmout", label] => ({ st with out := st.out.filter (·.1 ≠ label) }, "ok")
-  | ["rmres", label] => ({ st with res := st.res.filter (·.1 ≠ label) }, "ok")
+  | ["rmout", label] => ({ st with ts := { st.ts with out := fun k => if k = label then none else st.ts.out k } }, "ok")
+  | ["rmres", label] => ({ st with ts := { st.ts with res := fun k => if k = label then none else st.ts.res k } }, "ok")
+  | ["cacheon"] => ({ st with cacheOn := true }, "ok")
+  | ["wipe"] => ({ st with ts := { st.ts with out := fun _ => none, res := fun _ => none } }, "ok")     -- rm -rf plz-out
   | ["run", ls, fs] =>
     let req := splitList ls
     match closure st req, parseFlags fs with
@@ -124,12 +126,7 @@ def step (st : St) (line : String) : St × String :=
       let r := mkRepo st order
       let sel := fun k => order.contains k
       let tsel := fun k => req.contains k
-      let s0 : TSt := ⟨fun k => st.out.lookup k, fun k => st.res.lookup k⟩
-      let (s1, bran, reps) := plzTestE2E r sel tsel fl s0
-      let keys := (st.out.map (·.1) ++ order).eraseDups
-      let outL := keys.filterMap fun k => (s1.out k).map fun v => (k, v)
-      let rkeys := (st.res.map (·.1) ++ req).eraseDups
-      let resL := rkeys.filterMap fun k => (s1.res k).map fun v => (k, v)
+      let (s1, bran, reps) := plzTestE2E r sel tsel fl st.ts
       let tran := reps.flatMap fun p => match p.2 with | some rep => List.replicate rep.runs p.1 | none => []
       let shown := (sortStrs (reps.map (·.1))).map fun k =>
         match reps.lookup k with
@@ -137,7 +134,7 @@ def step (st : St) (line : String) : St × String :=
                              (if (s1.res k).isSome then "stored" else "none")
         | _ => k ++ "=notbuilt"
       let allPass := reps.all fun p => match p.2 with | some rep => rep.res == .pass | none => false
-      ({ st with out := outL, res := resL },
+      ({ st with ts := s1 },
        "bran=" ++ ",".intercalate (sortStrs (bran.filter (hasCmd st))) ++ "|tran=" ++ ",".intercalate (sortStrs tran) ++ "|" ++
        ";".intercalate shown ++ "|rc=" ++ (if allPass then "0" else "1"))
     | _, _ => (st, "error")
